@@ -23,6 +23,19 @@ What is read from where
     accepts a superset of what the code accepts): "at least one" of a repeated field, value-dependent rejections
     (`if a == b: raise`), a child whose class is chosen by a value read earlier and whose type therefore is `any`.
 
+Harmless rewrites.  Before interpretation each method is NORMALISED (class Normaliser): helper functions of the same
+module, helper methods of the same class (or inherited from a kmip module) that touch the stream are inlined at
+their call sites (statement calls, `x = helper(...)`, one-expression helpers in conditions such as `_is_2_0(v)`;
+positional / keyword / default parameters substituted, locals renamed, `return` turned into assignment; depth <= 3,
+no recursion), and equivalent guard forms are brought to the canonical ones (`if v: raise else: A`, version tests with
+swapped operands or under `not`, `if X is None: ... else: write`, `if not self.is_tag_next(T, s): raise` + read,
+`for a in self._xs or []`, a loop over a list literal of fields, a local list built from an attribute by a
+comprehension / append loop / extend and then written in a loop).  Tags may be given through module constants or
+class attributes.  A helper that cannot be inlined makes the class unrecognised with the helper and the reason named.
+The generated Lean file carries NO source line numbers (a pure line shift leaves it byte-identical, no rebuild); the
+lines of every field, approximation and unrecognised construct are in schemas_report.json.
+notes/selftest_schema_translator.py holds the rewrites that must stay quiet and the changes that must be caught.
+
 The translator interprets; it does not execute read()/write().  It is deterministic and imports nothing from
 /verif/harness/lib.
 """
@@ -468,6 +481,8 @@ def eliminate_returns(stmts, target):
         if _has_return([st]):
             raise NotInlinable("`return` inside a %s statement" % type(st).__name__.lower())
         out.append(st)
+    if out and isinstance(out[-1], ast.Raise):
+        return out, True                 # control never falls off the end
     if target is not None:
         out.append(ast.Assign(targets=[copy.deepcopy(target)], value=ast.Constant(value=None)))
     return out, False
@@ -799,13 +814,6 @@ class Normaliser(object):
     def method(self, fn):
         fn = copy.deepcopy(fn)
         params = [a.arg for a in fn.args.args]
-        if len(params) >= 3 and params[2] != "kmip_version":
-            old = params[2]
-            for n in ast.walk(fn):
-                if isinstance(n, ast.Name) and n.id == old:
-                    n.id = "kmip_version"
-                if isinstance(n, ast.arg) and n.arg == old:
-                    n.arg = "kmip_version"
         streams = {params[1]} if len(params) > 1 else set()
         for n in ast.walk(fn):
             if isinstance(n, ast.Assign) and len(n.targets) == 1 and isinstance(n.targets[0], ast.Name) \
